@@ -23,6 +23,7 @@ type w6Handler struct {
 	Caps  []int  `json:"caps"`
 	Event string `json:"event"`
 	Prod  int    `json:"prod"`
+	Uniq  string `json:"uniq,omitempty"`
 }
 
 var capRows = [][]evdev.EvType{
@@ -74,32 +75,49 @@ func devTypeName(t input.DeviceType) string {
 func runW6(t *testing.T, job *Job, seed uint64, rp *Replay) RunOut {
 	ro := RunOut{Faults: map[string]int{}, Probes: map[string]int{}, Policy: "sequential", Nontriv: true}
 	r := simrt.NewRng(seed, "workload")
-	var hs []w6Handler
+	// a run is a short history of discovery rounds (the monitor calls Normalize again and again): later rounds
+	// reuse event nodes of earlier ones for other handlers, as the kernel does after an unplug. Node numbers are
+	// unique per seed, so that runs executed by one worker process share nothing.
+	var rounds [][]w6Handler
 	if rp != nil && rp.Override && len(rp.Ops) > 0 {
-		json.Unmarshal(rp.Ops, &hs)
+		json.Unmarshal(rp.Ops, &rounds)
 	} else {
-		nPhys := r.Range(1, 5)
-		n := r.Range(1, 12)
-		if r.Chance(0.25) {
-			// a hub full of devices discovered in one batch
-			nPhys = r.Range(6, 24)
-			n = r.Range(nPhys, 3*nPhys)
-		}
-		for i := 0; i < n; i++ {
-			row := capRows[r.Intn(len(capRows))]
-			var caps []int
-			for _, c := range row {
-				caps = append(caps, int(c))
+		nRounds := r.Pick(6, 3, 1) + 1
+		for ri := 0; ri < nRounds; ri++ {
+			var hs []w6Handler
+			nPhys := r.Range(1, 5)
+			n := r.Range(1, 12)
+			if r.Chance(0.25) {
+				// a hub full of devices discovered in one batch
+				nPhys = r.Range(6, 24)
+				n = r.Range(nPhys, 3*nPhys)
 			}
-			if r.Chance(0.1) { // shuffled / duplicated capability lists
-				caps = append(caps, caps...)
+			for i := 0; i < n; i++ {
+				row := capRows[r.Intn(len(capRows))]
+				var caps []int
+				for _, c := range row {
+					caps = append(caps, int(c))
+				}
+				if r.Chance(0.1) { // shuffled / duplicated capability lists
+					caps = append(caps, caps...)
+				}
+				pi := r.Intn(nPhys)
+				ph := fmt.Sprintf("usb-0000:00:14.0-%d/input0", pi)
+				if r.Chance(0.1) {
+					ph = ""
+				}
+				// the serial number: usually the same on every interface of a device or missing on some of them
+				uq := ""
+				switch r.Pick(5, 3, 1) {
+				case 1:
+					uq = fmt.Sprintf("SN%04d", 100+pi)
+				case 2:
+					uq = fmt.Sprintf("SN%04d", r.Intn(3))
+				}
+				hs = append(hs, w6Handler{Uniq: uq, Name: fmt.Sprintf("Sim Device %d %s", r.Intn(nPhys), []string{"", "Mouse", "Consumer Control", "System Control", "Keyboard"}[r.Intn(5)]),
+					Phys: ph, Caps: caps, Event: fmt.Sprintf("event%d", seed*64+uint64(i)), Prod: r.Intn(3)})
 			}
-			ph := fmt.Sprintf("usb-0000:00:14.0-%d/input0", r.Intn(nPhys))
-			if r.Chance(0.1) {
-				ph = ""
-			}
-			hs = append(hs, w6Handler{Name: fmt.Sprintf("Sim Device %d %s", r.Intn(nPhys), []string{"", "Mouse", "Consumer Control", "System Control", "Keyboard"}[r.Intn(5)]),
-				Phys: ph, Caps: caps, Event: fmt.Sprintf("event%d", 9000+i), Prod: r.Intn(3)})
+			rounds = append(rounds, hs)
 		}
 	}
 	mk := func(h w6Handler) input.DeviceInfo {
@@ -107,9 +125,12 @@ func runW6(t *testing.T, job *Job, seed uint64, rp *Replay) RunOut {
 		for _, c := range h.Caps {
 			types = append(types, evdev.EvType(c))
 		}
-		return input.NewDeviceInfoForSim(strings.TrimSpace(h.Name), h.Phys, h.Event, input.InputID{Bus: 3, Vendor: 0x1234, Product: uint16(h.Prod), Version: 1}, types)
+		di := input.NewDeviceInfoForSim(strings.TrimSpace(h.Name), h.Phys, h.Event, input.InputID{Bus: 3, Vendor: 0x1234, Product: uint16(h.Prod), Version: 1}, types)
+		di.Uniq = h.Uniq
+		di.Sysfs = "/dev/input/" + h.Event
+		return di
 	}
-	b, _ := json.Marshal(hs)
+	b, _ := json.Marshal(rounds)
 	fail := func(clause, detail string) RunOut {
 		ro.Vio = &Vio{Props: []string{"C20"}, Clause: clause, Detail: detail}
 		ro.Replay = &Replay{World: "W6", Prop: "C20", Seed: seed, Tier: job.Tier, Ops: b, Override: true, Config: string(b)}
@@ -117,70 +138,76 @@ func runW6(t *testing.T, job *Job, seed uint64, rp *Replay) RunOut {
 	}
 	var firstSig string
 	orders := 6
-	for o := 0; o < orders; o++ {
-		perm := r.Perm(len(hs))
-		if o == 0 {
-			for i := range perm {
-				perm[i] = i
+	for ri, hs := range rounds {
+		for o := 0; o < orders; o++ {
+			if ri > 0 && o >= 2 {
+				break
 			}
-		}
-		var in []input.DeviceInfo
-		for _, i := range perm {
-			in = append(in, mk(hs[i]))
-		}
-		simrt.StandaloneMapOrder(simrt.NewRng(seed+uint64(o), "maporder"))
-		devs := input.Normalize(in)
-		simrt.StandaloneMapOrder(nil)
-		ro.Steps++
-		// partition
-		seen := map[string]int{}
-		var sig []string
-		for _, d := range devs {
-			var evs []string
-			var dis []input.DeviceInfo
-			physSet := map[string]bool{}
-			for _, h := range d.Handlers {
-				di := h.DeviceInfo
-				evs = append(evs, di.Event())
-				seen[di.Event()]++
-				physSet[di.Phys] = true
-				dis = append(dis, di)
+			perm := r.Perm(len(hs))
+			if o == 0 {
+				for i := range perm {
+					perm[i] = i
+				}
 			}
-			if len(physSet) != 1 {
-				return fail("mixed_locations_in_one_device", fmt.Sprintf("a device groups handlers of %d physical locations: %v", len(physSet), evs))
+			var in []input.DeviceInfo
+			for _, i := range perm {
+				in = append(in, mk(hs[i]))
 			}
-			if want := refType(dis); devTypeName(d.DeviceType) != want {
-				return fail("wrong_device_type", fmt.Sprintf("handlers %v: expected %s, got %s", evs, want, d.DeviceType))
+			simrt.StandaloneMapOrder(simrt.NewRng(seed+uint64(o)+uint64(ri)*16, "maporder"))
+			devs := input.Normalize(in)
+			simrt.StandaloneMapOrder(nil)
+			ro.Steps++
+			// partition
+			seen := map[string]int{}
+			var sig []string
+			for _, d := range devs {
+				var evs []string
+				var dis []input.DeviceInfo
+				physSet := map[string]bool{}
+				for _, h := range d.Handlers {
+					di := h.DeviceInfo
+					evs = append(evs, di.Event())
+					seen[di.Event()]++
+					physSet[di.Phys] = true
+					dis = append(dis, di)
+				}
+				if len(physSet) != 1 {
+					return fail("mixed_locations_in_one_device", fmt.Sprintf("a device groups handlers of %d physical locations: %v", len(physSet), evs))
+				}
+				if want := refType(dis); devTypeName(d.DeviceType) != want {
+					return fail("wrong_device_type", fmt.Sprintf("handlers %v: expected %s, got %s", evs, want, d.DeviceType))
+				}
+				sort.Strings(evs)
+				sig = append(sig, strings.Join(evs, "+")+":"+devTypeName(d.DeviceType)+"@"+d.Phys)
 			}
-			sort.Strings(evs)
-			sig = append(sig, strings.Join(evs, "+")+":"+devTypeName(d.DeviceType)+"@"+d.Phys)
-		}
-		for _, h := range hs {
-			if seen[h.Event] != 1 {
-				return fail("handler_not_in_exactly_one_device", fmt.Sprintf("handler %s appears in %d devices", h.Event, seen[h.Event]))
+			for _, h := range hs {
+				if seen[h.Event] != 1 {
+					return fail("handler_not_in_exactly_one_device", fmt.Sprintf("handler %s appears in %d devices", h.Event, seen[h.Event]))
+				}
 			}
-		}
-		// same location => same device
-		byPhys := map[string]int{}
-		for _, d := range devs {
-			byPhys[d.Phys]++
-		}
-		for p, n := range byPhys {
-			if n > 1 {
-				return fail("location_split_over_devices", fmt.Sprintf("physical location %q is spread over %d devices", p, n))
+			// same location => same device
+			byPhys := map[string]int{}
+			for _, d := range devs {
+				byPhys[d.Phys]++
 			}
-		}
-		sort.Strings(sig)
-		s := strings.Join(sig, " | ")
-		if o == 0 {
-			firstSig = s
-		} else if s != firstSig {
-			return fail("order_dependent", fmt.Sprintf("discovery order %v gives %s, the original order gave %s", perm, s, firstSig))
+			for p, n := range byPhys {
+				if n > 1 {
+					return fail("location_split_over_devices", fmt.Sprintf("physical location %q is spread over %d devices", p, n))
+				}
+			}
+			sort.Strings(sig)
+			s := strings.Join(sig, " | ")
+			if o == 0 {
+				firstSig = s
+			} else if s != firstSig {
+				return fail("order_dependent", fmt.Sprintf("discovery order %v gives %s, the original order gave %s", perm, s, firstSig))
+			}
 		}
 	}
 	ro.Hash = hashStr(string(b))
-	ro.Faults["discovery_orders"] += orders
-	ro.Faults["map_orders"] += orders
+	ro.Faults["discovery_orders"] += orders + 2*(len(rounds)-1)
+	ro.Faults["map_orders"] += orders + 2*(len(rounds)-1)
+	ro.Faults["discovery_rounds_reusing_event_nodes"] += len(rounds) - 1
 	ro.Sample = fmt.Sprintf("seed=%d handlers=%s -> %s", seed, shorten(string(b), 400), shorten(firstSig, 300))
 	return ro
 }
